@@ -313,7 +313,10 @@ SetValueR(s, name, v) ==
               ELSE IF ~ContExists(c, cid) THEN INVALID_HANDLE
               ELSE IF stuck THEN RESERVED_LOOP
               ELSE OK
-        e == [op |-> "set_value", cont |-> s, stale |-> StaleC(s), name |-> name, v |-> v, rc |-> rc, cif |-> c]
+        e0 == [op |-> "set_value", cont |-> s, stale |-> StaleC(s), name |-> name, v |-> v, rc |-> rc, cif |-> c]
+        \* the refusal in the `stuck` situation is what the library does, not what the data model prescribes (a scalar loop
+        \* without a packet should accept a scalar): the entry says so, and C04 reports it (known finding)
+        e == IF rc = RESERVED_LOOP THEN [e0 EXCEPT !.rc = rc] @@ [stuck |-> 1] ELSE e0
     IN IF rc # OK THEN On(e, Cur)
        ELSE IF IL # {} THEN On(e, [Cur EXCEPT !.vals = SetAll(CHOOSE l \in IL : TRUE, n, v)])
        ELSE IF SL = {} /\ (Cardinality(LoopsOf(c, cid)) >= MaxLoopsPerCont \/ ContOf(c, cid).nl >= MaxNl) THEN Off
